@@ -10,7 +10,8 @@ from typing import Tuple
 import inspect
 
 USED_SOURCES = {}
-# Path of the file whose text is held in USED_SOURCES under each (base) file name.
+# Path, modification time and size of the file whose text is held in USED_SOURCES
+# under each (base) file name.
 _SOURCE_PATHS = {}
 REFS = []
 
@@ -70,12 +71,15 @@ class SourceRef:
         src = None
         try:
             # The text is cached per file: another file with the same base name
-            # (e.g. a program compiled later in the same process) is read again.
-            if filename not in USED_SOURCES or _SOURCE_PATHS.get(filename) != path:
+            # (e.g. a program compiled later in the same process), or the same
+            # file after it was rewritten, is read again.
+            stat = os.stat(path)
+            stamp = (path, stat.st_mtime_ns, stat.st_size)
+            if filename not in USED_SOURCES or _SOURCE_PATHS.get(filename) != stamp:
                 with open(path, encoding="utf-8") as file:
                     src = file.read()
                 USED_SOURCES[filename] = src
-                _SOURCE_PATHS[filename] = path
+                _SOURCE_PATHS[filename] = stamp
             else:
                 src = USED_SOURCES[filename]
         except OSError:
